@@ -444,6 +444,24 @@ class ColorValue(Value):
                             raw.append(int(255 * item.value.value / 100))
                         check += 'P'
 
+                # validate before the components are used
+                checks = {
+                    'rgb(': ('NNN', 'PPP'),
+                    'rgba(': ('NNNN', 'PPPN'),
+                    'hsl(': ('NPP',),
+                    'hsla(': ('NPPN',),
+                }
+                if check not in checks[functiontype]:
+                    self._log.error(
+                        'ColorValue has invalid %s) parameters: '
+                        '%s (N=Number, P=Percentage)' % (functiontype, check)
+                    )
+                    if len(check) != len(checks[functiontype][0]):
+                        # input ended inside the function, e.g. ``rgb(1``:
+                        # there are no three (four) components to use
+                        self.wellformed = False
+                        return
+
                 if HSL:
                     # convert to rgb
                     # h is 360 based (circle)
@@ -466,19 +484,6 @@ class ColorValue(Value):
 
                 if len(rgba) < 4:
                     rgba.append(1.0)
-
-                # validate
-                checks = {
-                    'rgb(': ('NNN', 'PPP'),
-                    'rgba(': ('NNNN', 'PPPN'),
-                    'hsl(': ('NPP',),
-                    'hsla(': ('NPPN',),
-                }
-                if check not in checks[functiontype]:
-                    self._log.error(
-                        'ColorValue has invalid %s) parameters: '
-                        '%s (N=Number, P=Percentage)' % (functiontype, check)
-                    )
 
             self.wellformed = True
             self._colorType = t
